@@ -43,7 +43,7 @@ def main(tier='quick', seed=0):
     records, errors = [], []
     from props import c14
     # the result is a function of the arguments of THIS call: no module-level state, no identity / hash dependence in parsing.py outside run()
-    records.extend(c14.purity_scan(PROP, rels=('depccg/parsing.py',), exclude=('run',), imports=False))
+    records.extend(c14.purity_scan(PROP, rels=('depccg/parsing.py',), exclude=('run',), imports=False, state_only=True))       # state only: waiting for worker processes (time.sleep) is not a dependence of the filter on history
     for r in results:
         records.extend(r.get('records', []))
         if r.get('error'):
